@@ -8,7 +8,7 @@ from ..common import Run, Machinery
 from ..concretize import Config, pick_configs
 
 DATA_OPS = ['append', 'truncate', 'setitem', 'mode', 'reopen']
-META_OPS = ['meta', 'mode', 'reopen', 'truncate']
+META_OPS = ['meta', 'mode', 'reopen', 'truncate', 'metamode']
 
 
 class Sess(am.Session):
@@ -44,7 +44,7 @@ class Binding:
     def compare(self, p, exp, obs, obs_out, sess=None, pre=None, macro=None, src=None):
         if p == 'C11':
             mm = []
-            if src['mode'] == 'r' and macro.name in self.MUTATING:
+            if src['mode'] == 'r' and src.get('mmode', 'r') == 'r' and macro.name in self.MUTATING:
                 post = disk.snapshot(sess.path)
                 df = disk.snapdiff(pre, post)
                 if obs_out == 'ok':
@@ -53,13 +53,15 @@ class Binding:
                     mm.append(('directory', 'byte-identical', 'removed'))
                 elif df:
                     mm.append(('directory', 'byte-identical', df[:4]))
-            elif src['mode'] == 'r+' and macro.name in self.MUTATING:
+            elif macro.name in self.MUTATING:
                 # "after switching to r+ the same operations succeed": the spec
                 # says which calls succeed in r+
                 if (exp['out'] == 'ok') != (obs_out == 'ok'):
                     mm.append(('out in r+', exp['out'], obs_out))
             if obs['live'].get('mode') != exp['mode']:
                 mm.append(('accessmode', exp['mode'], obs['live'].get('mode')))
+            if obs['live'].get('mmode') != exp.get('mmode', exp['mode']) and not exp.get('gone'):
+                mm.append(('metadata accessmode', exp.get('mmode'), obs['live'].get('mmode')))
             return mm
         return am.compare(p, exp, obs, obs_out, sess=sess, strict_out=(macro.name == 'M_Call'))
 
